@@ -160,7 +160,10 @@ def grammar_cases(rng: random.Random) -> List[Dict[str, Any]]:
                           (f'def hr_{lbl} a {{\n;a\n}}\nrep(0-{nines}, i) hr_{lbl} i\n', ['rep', f'hr_{lbl}']),
                           (f'segment (0-{huge})\n;\n', ['segment', 'space']), (f'reserve (0-{huge})\n', ['reserve', 'space']),
                           (f'wflip (0-{huge}), 1\n', []), (f'kq_{lbl} = {huge}\nkq_{lbl} = 5\n;kq_{lbl}\n', [f'kq_{lbl}']),
-                          (f';{huge} ? never_declared_{lbl} : 1\n', [f'never_declared_{lbl}']), (f'x_{lbl} = {huge} {huge}\n', [])):
+                          (f';{huge} ? never_declared_{lbl} : 1\n', [f'never_declared_{lbl}']), (f'x_{lbl} = {huge} {huge}\n', []),
+                          (f'segment {huge}\nfar_{lbl}:\n', []), (f'segment {nines}*{w}\nfar_{lbl}:\n', []), (f'reserve {nines}*{w}\n', []),
+                          (f'def hu_{lbl} {{\n  never_defined_macro_{lbl}\n}}\nrep({nines}, i) hu_{lbl}\n', []),
+                          (f'def hv_{lbl} a {{\n  never_defined_macro_{lbl} a\n}}\nrep(2, i) hv_{lbl} {huge}\n', [])):
         # (which of several true diagnoses comes first - the huge operand, "not enough space", the undeclared name - depends on the
         # stage that meets the statement: this class is about never reaching the catch-all, the message content is left open)
         add('huge-constant', pre + text, [])
@@ -256,6 +259,7 @@ class Runner:
         self.journal = journal
         self.dir = engines.tmpdir()
         self.hung_classes: set = set()
+        self.option_draws = 0
 
     def count(self, key: str, n: int = 1) -> None:
         self.counters[key] = self.counters.get(key, 0) + n
@@ -295,6 +299,14 @@ class Runner:
         kwargs: Dict[str, Any] = {}
         if case.get('max_recursion_depth'):
             kwargs['max_recursion_depth'] = case['max_recursion_depth']
+        # the optional outputs of an assembly are part of it: the debugging-labels file and the macro-usage statistics
+        self.option_draws += 1
+        if self.option_draws % 3 == 0:
+            kwargs['debugging_file_path'] = self.dir / 'c14_out.fjd'
+            self.count('assemblies_with_a_debugging_file')
+        if self.option_draws % 7 == 0:
+            kwargs['show_statistics'] = True
+            self.count('assemblies_with_statistics')
         if cls in self.hung_classes:
             self.count('cases_skipped_after_a_hang_of_their_class')
             return 'skipped'
